@@ -179,6 +179,37 @@ theorem join_confined (p : Params) (ib : InfoIn) (o : InfoOut)
         Under (dataDirOf dataDir id incl) (storagePath (dataDirOf dataDir id incl) f.path) = true) :=
   join_confined_partial clean_dotdot_iff_holds p ib o hh h
 
+/-- **remove_confined.** The directory (or file) `Session.RemoveTorrent` deletes when the
+torrent-id level is off, `Join(DataDir, cleanName(Name))`, is the single real component
+`cleanName(Name)` directly below the data directory — the same first element every file of the
+torrent was created under (`join_confined`). -/
+theorem remove_confined (p : Params) (ib : InfoIn) (o : InfoOut)
+    (hh : p.hashHex ≠ [] ∧ p.hashHex ≠ dot ∧ p.hashHex ≠ dotdot)
+    (h : newInfo p ib = .ok o) (dataDir : Bytes) (hd : CleanAbs dataDir) :
+    fpJoin [dataDir, cleanName o.name] = dataDir ++ SLASH :: cleanName o.name ∧
+    Under dataDir (fpJoin [dataDir, cleanName o.name]) = true := by
+  obtain ⟨hgood, _⟩ := accepted_parts clean_dotdot_iff_holds p ib o hh h
+  obtain ⟨_, _, _, _, _, length, padding, fs, _, _, _, ho⟩ := newInfo_ok_elim p ib o h
+  have hname : o.name = (if effName p.utf8 ib ≠ [] then effName p.utf8 ib else p.hashHex) := by
+    rw [ho]
+  rw [hname]
+  generalize cleanName (if effName p.utf8 ib ≠ [] then effName p.utf8 ib else p.hashHex) = c at hgood
+  have h1 := (fpJoin_under dataDir [c] hd (by simp) (by intro x hx; simp at hx; rw [hx]; exact hgood)).1
+  simp only [joinSlash] at h1
+  refine ⟨h1, ?_⟩
+  rw [h1]
+  unfold Under
+  have e : dataDir ++ SLASH :: c = (dataDir ++ [SLASH]) ++ c := by simp
+  rw [e, isPrefixOfB_append]
+  have hdrop : ((dataDir ++ [SLASH]) ++ c).drop (dataDir.length + 1) = c := by
+    have : (dataDir ++ [SLASH]).length = dataDir.length + 1 := by simp
+    rw [← this, List.drop_left]
+  rw [hdrop]
+  have := confined_joinSlash [c] (by simp) (by intro x hx; simp at hx; rw [hx]; exact hgood)
+  simp only [joinSlash] at this
+  rw [this]
+  rfl
+
 /-- **paths_unique.** In an accepted description, the non-padding files have pairwise different
 paths (no two files of one torrent resolve to the same file on disk). -/
 theorem paths_unique (p : Params) (ib : InfoIn) (o : InfoOut) (h : newInfo p ib = .ok o) :
